@@ -250,15 +250,62 @@ def main():
            ("ok-plain", "fa > y", "accept", False, R), ("tag-on-untagged", "fa > y:T", "refuse", False, R), ("ok-ctx", "fa(x) > y", "accept", False, R),
            ("ok-wrap", "fa(!x, !!y)", "accept", False, R), ("ok-override", "fa > y", "accept", True, R),
            ("ok-loopvar-unknown", "fa > #loop_zz", "refuse", False, R), ("list-selector", "fa, fa", "refuse", False, ["SyntaxError", "SelectorError"])]
-    for what, text, expect, ovr, allowed in SEL:
+    # every kind of malformation at every position of a call path (ga calls fa)
+    def ga(u):
+        w = fa(u) + 1
+        return w
+    env["ga"] = ga
+    CAPPOS = [("root-focus", "fa > {}", "y"), ("root-ctx", "fa({}) > y", "x"), ("child-focus", "ga > fa > {}", "y"),
+              ("child-ctx", "ga > fa({}) > y", "x"), ("outer-ctx", "ga({}) > fa > y", "u"), ("incall-child", "ga(fa({}, !y))", "x")]
+    CAPBAD = [("unknown-meta", lambda v: "#nope", R), ("category-not-tag", lambda v: v + ":three", ["TypeError"]),
+              ("category-not-tag-cls", lambda v: v + ":cls", ["TypeError"]),
+              ("unknown-variable", lambda v: "nothere", R), ("tag-on-untagged", lambda v: v + ":T", R),
+              ("generic-tag-nowhere", lambda v: "$z:@T", R)]
+    for pos, tmpl, v in CAPPOS:
+        SEL.append((f"ok@{pos}", tmpl.format(v), "accept", False, R))
+        for bad, mk, allowed in CAPBAD:
+            SEL.append((f"{bad}@{pos}", tmpl.format(mk(v)), "refuse", False, allowed))
+    FNPOS = [("fn-root", "fa{} > y"), ("fn-root-call", "fa{}(x) > y"), ("fn-child", "ga > fa{} > y"), ("fn-outer", "ga{} > fa > y"),
+             ("fn-incall", "ga(fa{}(!y))")]
+    for pos, tmpl in FNPOS:
+        SEL.append((f"category-not-tag@{pos}", tmpl.format(":three"), "refuse", False, ["TypeError"]))
+        SEL.append((f"category-not-tag-cls@{pos}", tmpl.format(":cls"), "refuse", False, ["TypeError"]))
+    SEL += [("unresolvable-fn@child", "ga > zzz > y", "refuse", False, R), ("unresolvable-fn@outer", "zzz > fa > y", "refuse", False, R),
+            ("not-a-function@child", "ga > three > y", "refuse", False, ["TypeError"]),
+            ("second-focus-alone@child", "ga > fa(!!y)", "refuse", False, ["ValueError", "SelectorError"]),
+            ("second-focus-alone@incall", "ga(fa(x, !!y))", "refuse", False, ["ValueError", "SelectorError"])]
+
+    def attempt(text, ovr):
         try:
             p = probing(text, env=env, overridable=ovr)
             with p:
-                fa(1)
-            o = "ok"
+                ga(1)
+            return "ok"
         except BaseException as ex:
-            o = type(ex).__name__
-        cases.append({"id": len(cases), "kind": "select", "what": what, "text": text, "expect": expect, "outcome": o,
+            return type(ex).__name__
+
+    def inspect_selector(text):
+        # reading the public attributes of the compiled (interned) selector must not change what a later activation does
+        try:
+            from ptera.selector import select
+            sel = select(text, env=env)
+        except BaseException:
+            return
+        for attr in ("main", "focus", "hasval", "valid", "all_tags", "all_captures", "all_values"):
+            try:
+                getattr(sel, attr)
+            except BaseException:
+                pass
+        try:
+            str(sel), repr(sel), sel.encode(), sel.problems()
+        except BaseException:
+            pass
+    for what, text, expect, ovr, allowed in SEL:
+        o = attempt(text, ovr)
+        again = [attempt(text, ovr)]
+        inspect_selector(text)
+        again.append(attempt(text, ovr))
+        cases.append({"id": len(cases), "kind": "select", "what": what, "text": text, "expect": expect, "outcome": o, "again": again,
                       "allowed": allowed + ["SyntaxError"]})
     json.dump(cases, open(outp, "w"))
     import collections
